@@ -23,6 +23,7 @@ RULE = ("block level: every (l_a, l_b) in 0..5 x 0..5 (both L_a>=L_b and L_a<L_b
         "attraction = sum over charges; tolerance 1e-8*sqrt(|V_aa V_bb|) per charge from the exact model; distinct by "
         "input hash; hp stream: 6 (quick) / 50 (thorough) shell pairs l<=2 / l<=3, K,M<=2, 1-2 charges, replayed at 260 "
         "bits (Boys function by mpmath), tolerance 1e-18 x largest sum|primitive terms| of the block")
+RULE += " HISTORY stream (the returned value depends only on the arguments): basis-level shells carry the atom index (icenter; shells sharing a centre share it); every 2nd generated basis (quick; every 4th thorough; with a transform only bases of 1-2 shells; only where the exact model is cheap: pair-cost estimate x charges <= 40000 quick / 120000 thorough) and every 5th same-centre pair is a GEOMETRY SCAN evaluated in one process: the same shells (exponents, coefficients, types, icenter) with the atoms displaced rigidly by k/16 bohr (one atom, or every atom by its own vector) at 1-2 further geometries, then the first geometry again; every call is compared with the exact model at its own geometry with the same tolerance (detail kind \"history\", the replay case contains the geometries; shrinking and replay evaluate every candidate sequence in a fresh process)"
 ASSUMPTIONS = ["rounding of the NumPy pipeline and of scipy.special.hyp1f1 is not modelled: accuracy is decided on the "
                "generated inputs against the exact value (Boys function by mpmath at 260 bits)"]
 
@@ -161,9 +162,13 @@ def gen_cases(tier, seed):
             centres = [[Fraction(x) for x in s["coord"]] for s in c["basis"]]
             c["pts"] = place_points(rng, centres, rng.randint(1, 5))
             c["nuclear"] = (i % 2 == 0)
+            # HISTORY (geometry scans, twoindex.add_history; the charges stay where they are): only where the exact
+            # model (Boys tables per charge) is cheap, so that no scan sets the wall time of the tier
+            if c.get("hist") and twoindex.cost_proxy(c) * len(c["pts"]) > (40000 if tier == "quick" else 120000):
+                c["hist"] = None
     return hp + cases
 
 
 def run(rep, tier, seed, model, replay):
     cases = [replay["case"]] if replay is not None else gen_cases(tier, seed)
-    run_cases(rep, cases, eval_case, shrinkfn=twoindex.shrink_case)
+    run_cases(rep, cases, eval_case, shrinkfn=twoindex.shrink_case, isolate=True)
